@@ -223,11 +223,11 @@ func (f *File) Truncate(size int64) error {
 	return err
 }
 
-func (f *File) Chdir() error                       { return f.f.Chdir() }
-func (f *File) Chmod(mode FileMode) error          { return f.f.Chmod(mode) }
-func (f *File) Chown(uid, gid int) error           { return f.f.Chown(uid, gid) }
-func (f *File) ReadDir(n int) ([]DirEntry, error)  { sim.Yield(); return f.f.ReadDir(n) }
-func (f *File) Readdir(n int) ([]FileInfo, error)  { sim.Yield(); return f.f.Readdir(n) }
+func (f *File) Chdir() error                      { return f.f.Chdir() }
+func (f *File) Chmod(mode FileMode) error         { return f.f.Chmod(mode) }
+func (f *File) Chown(uid, gid int) error          { return f.f.Chown(uid, gid) }
+func (f *File) ReadDir(n int) ([]DirEntry, error) { sim.Yield(); return f.f.ReadDir(n) }
+func (f *File) Readdir(n int) ([]FileInfo, error) { sim.Yield(); return f.f.Readdir(n) }
 func (f *File) Readdirnames(n int) ([]string, error) {
 	sim.Yield()
 	return f.f.Readdirnames(n)
